@@ -21,3 +21,11 @@ pub mod endpoint;
 pub mod path;
 pub mod recovery;
 pub mod stream;
+
+#[cfg(all(aws_s2n_quic_verif, test, not(kani)))]
+#[path = "/verif/harness/shim/kani.rs"]
+mod kani;
+
+#[cfg(all(aws_s2n_quic_verif, any(test, all(kani, feature = "testing"))))]
+#[path = "/verif/harness/transport/support.rs"]
+pub(crate) mod verif_support;
